@@ -308,6 +308,13 @@ def F66():
     r = scale(np.array([1.0, 2.0, 4.0, 7.0]) * 1e200)
     return not (np.isfinite(r).all() and abs(r.std(ddof=1) - 1) < 1e-9)
 
+def F67():
+    from formulaic.transforms import basis_spline as bs
+    st = {}
+    bs(np.array([0.0, 0.4, 0.8, 1.2, 1.6, 4.0]), knots=[0.0, 2.0], include_intercept=True, extrapolation="extend", _state=st)
+    B = bs(np.array([-1.0]), knots=[0.0, 2.0], include_intercept=True, extrapolation="extend", _state=st)
+    return not np.allclose([B[k][0] for k in range(6)], [0, 3.375, -2.84375, 0.5, -0.03125, 0])
+
 ids = sys.argv[1:] or [f"F{i}" for i in range(1, 26)]
 for i in ids:
     try:
